@@ -160,6 +160,10 @@ type handler struct {
 	pendingMsg atomic.Pointer[announce.Announce]
 	// expires is the time the handler is removed if it remains idle.
 	expires time.Time
+	// users is the number of syncs, running or waiting to run, and of
+	// announce handling goroutines that are using this handler. The handler
+	// is not idle while it is in use. Protected by handlersMutex.
+	users int
 	// syncer is a sync client for this handler's peer.
 	syncer Syncer
 }
@@ -434,6 +438,7 @@ func (s *Subscriber) SyncAdChain(ctx context.Context, peerInfo peer.AddrInfo, op
 	log := log.With("peer", peerInfo.ID)
 
 	hnd := s.getOrCreateHandler(peerInfo.ID)
+	defer s.releaseHandler(hnd)
 
 	// Wait for any other sync of this publisher to finish before choosing the
 	// stop point and the head, so that they are current when this sync runs.
@@ -595,6 +600,7 @@ func (s *Subscriber) syncEntries(ctx context.Context, peerInfo peer.AddrInfo, en
 	}
 
 	hnd := s.getOrCreateHandler(peerInfo.ID)
+	defer s.releaseHandler(hnd)
 
 	hnd.syncMutex.Lock()
 	defer hnd.syncMutex.Unlock()
@@ -695,8 +701,20 @@ func (s *Subscriber) getOrCreateHandler(peerID peer.ID) *handler {
 		}
 		s.handlers[peerID] = hnd
 	}
+	hnd.users++
 
 	return hnd
+}
+
+// releaseHandler tells that the caller of getOrCreateHandler is done using the
+// handler. A handler becomes idle when it is no longer in use.
+func (s *Subscriber) releaseHandler(hnd *handler) {
+	expires := time.Now().Add(s.idleHandlerTTL)
+
+	s.handlersMutex.Lock()
+	hnd.users--
+	hnd.expires = expires
+	s.handlersMutex.Unlock()
 }
 
 // idleHandlerCleaner periodically looks for idle handlers to remove. This
@@ -709,7 +727,7 @@ func (s *Subscriber) idleHandlerCleaner() {
 		case now := <-t.C:
 			s.handlersMutex.Lock()
 			for pid, hnd := range s.handlers {
-				if now.After(hnd.expires) {
+				if hnd.users == 0 && now.After(hnd.expires) {
 					delete(s.handlers, pid)
 					log.Debugw("Removed idle handler", "peer", pid)
 				}
@@ -749,6 +767,9 @@ func (s *Subscriber) watch() {
 		if oldMsg != nil {
 			verifPoint("watch.swap.replaced", amsg.PeerID, amsg.Cid)
 			log.Infow("Pending announce replaced by new", "previous_cid", oldMsg.Cid, "new_cid", amsg.Cid, "peer", hnd.peerID)
+			// The goroutine that is waiting to handle the pending message
+			// is using the handler.
+			s.releaseHandler(hnd)
 			continue
 		}
 		verifPoint("watch.swap.spawn", amsg.PeerID, amsg.Cid)
@@ -757,6 +778,7 @@ func (s *Subscriber) watch() {
 		// Start a new goroutine to handle this message.
 		s.asyncWG.Add(1)
 		go func() {
+			defer s.releaseHandler(hnd)
 			// Wait for any previous asyncSyncAdChain to finish before removing the
 			// latest pending messaged and reducing the available items in the sync
 			// semaphore.
